@@ -57,13 +57,26 @@ def menu_for(tier, algos=None, ks=None):
                         m.append(step.DeleteIfInvalid(k, ck, sp, sz, not valid, tagname=tag))
                         m[-1].roles = "delete_if_invalid_object(%s: %s, %s)" % (
                             roles_v, name.split(" changed")[0], "default algorithm" if canon in FIVE else "non-default algorithm")
-            # size only
-            for sname, sz, valid in (("true size", n, True), ("size+1", n + 1, False), ("size-1", n - 1, False)):
+                # the checksum algorithm also given as additional algorithm (same text): the verdict is the same
+                true = hashlib.new(canon, c).hexdigest()
+                for name, ck, valid in (("correct", true, True), ("one hex digit changed", variants(c, canon, tier)[-1][1], False)):
+                    m.append(step.StoreObj(0, k, add=canon, add_canon=canon, checksum=ck, calgo=canon, calgo_canon=canon,
+                                           invalid=not valid, tagname=", %s given twice, %s" % (canon, name),
+                                           roles="store_object(pid, content, %s: additional algorithm = checksum algorithm, %s)" % (
+                                               "valid" if valid else "invalid", "default algorithm" if canon in FIVE else "non-default algorithm")))
+            # size only; also through a reader whose `name` is another file of another size (the verdict is about
+            # the bytes that were stored, not about whatever the argument is called)
+            other = len(w.contents[(k + 1) % w.NK])
+            for sname, sz, valid in (("true size", n, True), ("size+1", n + 1, False), ("size-1", n - 1, False),
+                                     ("size of the file the reader is named after", other, other == n)):
                 if sz < 1:
                     continue
-                m.append(step.StoreObj(0, k, size=sz, invalid=not valid, tagname=", no checksum, " + sname,
-                                       roles="store_object(pid, content, %s: no checksum, %s)" % (
-                                           "valid" if valid else "invalid", sname)))
+                for kind in ("path", "decoder"):
+                    m.append(step.StoreObj(0, k, kind=kind, size=sz, invalid=not valid,
+                                           tagname=", no checksum, %s%s" % (sname, "" if kind == "path" else ", reader"),
+                                           roles="store_object(pid, content%s, %s: no checksum, %s)" % (
+                                               "" if kind == "path" else " through a named reader",
+                                               "valid" if valid else "invalid", sname)))
         return m
     return menu_fn
 
